@@ -260,8 +260,10 @@ class StoreRun:
         if self.is_lsm:
             if ph["flush"] or self.store._immutable_memtables:
                 self.bump("probe.read_during_flush")
+                self.c["fault.read_started_inside_flush_window"] = self.c.get("fault.read_started_inside_flush_window", 0) + 1
             if ph["compact"]:
                 self.bump("probe.read_during_compaction")
+                self.c["fault.read_started_inside_compaction_window"] = self.c.get("fault.read_started_inside_compaction_window", 0) + 1
 
     def diagnose(self, key, cap, allowed, got, opkind):
         if self.is_lsm:
@@ -377,6 +379,7 @@ class Client(Entity):
                 hist.complete(h, got)
                 if R.is_btree and cap["splits"] != store._total_splits:
                     R.bump("probe.btree_split_during_get")
+                    R.c["fault.btree_split_during_get"] = R.c.get("fault.btree_split_during_get", 0) + 1
                 R.judge("get", key, h["inv"], h["ret"], got, cap, h["id"])
             elif kind == "scan":
                 if R.sc["engine"]["kind"] == "kv":
@@ -512,6 +515,7 @@ def run_store(sc):
             R.bump("probe.three_levels_occupied")
         if R.kicker.fired:
             R.bump("probe.trigger_compaction_started")
+            R.c["fault.compaction_trigger_started_compaction"] = R.kicker.fired
         st = R.store.stats
         state = repr((sc["engine"]["strategy"], min(sc["engine"]["memtable"], 3), sc["engine"]["max_levels"],
                       R.watch.max_levels_occupied, R.watch.deepest_level_used, sorted(R.flag_states)[-1:] if R.flag_states else None,
@@ -812,6 +816,7 @@ def run_tx(sc):
                     between = True
     if between:
         counters["probe.tx_commit_between_reads"] = 1
+        counters["fault.tx_commit_landed_between_two_reads"] = 1
     counters["tx_committed"] = sum(1 for r in recs if r["outcome"] == "committed")
     counters["tx_conflict_aborts"] = sum(1 for r in recs if r["outcome"] == "conflict-abort")
     counters["reads_judged"] = sum(len(r["reads"]) for r in recs)
